@@ -86,9 +86,10 @@ const (
 	lfNonList    listFault = "nonlist"    // an object that is not a list
 	lfNoItems    listFault = "noitems"    // a meta.List without an Items field
 	lfNonObjects listFault = "nonobjects" // a list whose items are not API objects
+	lfMixed      listFault = "mixed"      // a list with valid objects and one item that is not an API object
 )
 
-var allListFaults = []listFault{lfError, lfNilNil, lfNonList, lfNoItems, lfNonObjects}
+var allListFaults = []listFault{lfError, lfNilNil, lfNonList, lfNoItems, lfNonObjects, lfMixed}
 
 // noItemsList implements runtime.Object and metav1.ListInterface but has no Items.
 type noItemsList struct {
@@ -327,6 +328,12 @@ func (a *fakeAPI) faultResult(f listFault) (runtime.Object, error) {
 		return &noItemsList{ListMeta: metav1.ListMeta{ResourceVersion: "1"}}, nil
 	case lfNonObjects:
 		return &metav1.List{ListMeta: metav1.ListMeta{ResourceVersion: "1"}, Items: []runtime.RawExtension{{Object: &runtime.Unknown{}}}}, nil
+	case lfMixed:
+		return &metav1.List{ListMeta: metav1.ListMeta{ResourceVersion: "1"}, Items: []runtime.RawExtension{
+			{Object: &corev1.Pod{ObjectMeta: metav1.ObjectMeta{Namespace: "a", Name: "valid1", ResourceVersion: "1"}}},
+			{Object: &runtime.Unknown{}},
+			{Object: &corev1.Pod{ObjectMeta: metav1.ObjectMeta{Namespace: "a", Name: "valid2", ResourceVersion: "1"}}},
+		}}, nil
 	}
 	panic("no fault")
 }
